@@ -380,10 +380,19 @@ func c14GenProgram(rt *rapid.T) []prog.Op {
 		}
 		n = rapid.IntRange(0, 6).Draw(rt, "nafter")
 	}
+	// a third of the histories keep a plain object in the bucket, so that deleting the bucket is
+	// refused: a refused request changes nothing about the uploads in progress
+	guarded := rapid.IntRange(0, 2).Draw(rt, "guarded") == 0
+	if guarded {
+		ops = append(ops, prog.Op{K: "put", B: "bk0", Key: "zz-plain-object", Body: []byte("keeps the bucket non-empty")})
+	}
 	for i := 0; i < n; i++ {
 		kind := rapid.SampledFrom([]string{"init", "init", "part", "part", "part", "part", "abort", "complete"}).Draw(rt, "kind")
 		if len(gone) == 0 {
 			kind = "init"
+		}
+		if guarded && len(gone) > 0 && rapid.IntRange(0, 6).Draw(rt, "rmbucket") == 0 {
+			ops = append(ops, prog.Op{K: "rmbucket", B: "bk0"})
 		}
 		switch kind {
 		case "init":
@@ -435,6 +444,8 @@ func c14Run(t *testing.T, c *evid.Collector) {
 			{ini("d"), {K: "part", Ref: 0, PartN: 1, Body: b("1")}, {K: "part", Ref: 0, PartN: 2, Body: b("22")}, {K: "part", Ref: 0, PartN: 5, Body: b("55555")}, {K: "part", Ref: 0, PartN: 10000, Body: b("x")}},
 			{ini("a"), ini("d"), {K: "part", Ref: 1, PartN: 3, Body: b("333")}, {K: "part", Ref: 1, PartN: 7, Body: b("7")}, {K: "abort", Ref: 0}, ini("a/c"), ini("a/b")},
 			{ini("a"), ini("d"), ini("a/b"), ini("a"), ini("d"), ini("a/b"), ini("a"), ini("d"), ini("a/b"), ini("a"), ini("d"), ini("a/b"), ini("a"), {K: "abort", Ref: 3}},
+			// a refused request to delete the (non-empty) bucket leaves the uploads in progress and their parts alone
+			{{K: "put", B: "bk0", Key: "zz-plain-object", Body: b("x")}, ini("a/b"), ini("a/b"), ini("d"), {K: "part", Ref: 0, PartN: 1, Body: b("one")}, {K: "part", Ref: 0, PartN: 3, Body: b("three")}, {K: "rmbucket", B: "bk0"}, ini("a/c")},
 			// a completion the backend refuses (file system backends: the key collides with the live key "a"):
 			// the upload was neither completed nor aborted, so it stays listed with its parts
 			{ini("a"), {K: "part", Ref: 0, PartN: 1, Body: b("1")}, {K: "complete", Ref: 0, Parts: []prog.Part{{N: 1}}}, ini("d"), ini("a/b"), {K: "part", Ref: 2, PartN: 1, Body: b("one")},
